@@ -101,7 +101,8 @@ def run(R):
         cases = [c for part in R.parallel(jobs) for c in part]
     else:
         cases = gen(R, 2, 3, ["a", "b", "w"], ["a", "b", "w", "'a'", "x=1", ";"], "alias1")
-        cases += gen(R, 2, 3, ["a", "b", ";", "x=1", "if", "!"], ["a", "b", "w", "|", "!", "if", "then", "fi", ";"], "alias2")
+        cases += gen(R, 2, 2, ["a", "b", ";", "if", "!"], ["a", "b", "w", "|", "!", "if", "then", "fi", ";"], "alias2")
+        cases += gen(R, 1, 4, ["a", "b", ";", "x=1", "if", "!"], ["a", "b", "w", "|", "!", "if", ";"], "alias2b")
         cases += gen(R, 2, 4, ["a", "b", "c", "w"], ["a", "c", "w", ";"], "alias3", tables=TABLES3)
         cases += gen(R, 1, 5, ["a", "b", "w"], ["a", "b", "w", "$(", ")"], "alias4")
         cases += gen(R, 3, 9, ["a", "b", "w", "for", "case", "in"], ["a", "b", "w"], "alias5", tables=TABLES5, sources=SOURCES5)
